@@ -129,5 +129,45 @@ def run(ck, prop, reps=2):
                     ck.ratio("history", regime, _close(_vals(r2), _vals(ref), u), 1.0, name, "result_depends_on_call_history_of_the_operand",
                              dict(wit, update=how))
                     ck.mark("history/" + how)
-    ck.require("history/copy_", "history/index", "history/retract")
+    # ---- memory layouts: the same values handed over as non-contiguous views / expanded (stride-0) tensors / tensors that
+    # require grad must give the same result as a fresh contiguous tensor
+    for dn in ("f64", "f32"):
+        dtype = lie.DT[dn]
+        u = lie.u_of(dtype)
+        for (name, kx, kaux, f) in ops_for(prop):
+            for lay in ("strided-batch", "strided-last", "expanded", "transposed", "requires_grad"):
+                shape = (3,) if lay != "transposed" else (2, 3)
+                v = _make(kx, rng, shape, dtype)
+                d = v.shape[-1]
+                if lay == "strided-batch":
+                    big = torch.zeros((6, d), dtype=dtype)
+                    big[::2] = v
+                    view = big[::2]
+                elif lay == "strided-last":
+                    big = torch.zeros((3, 2 * d), dtype=dtype)
+                    big[:, ::2] = v
+                    view = big[:, ::2]
+                elif lay == "expanded":
+                    v = v[:1].expand(3, d).clone()
+                    view = v[:1].expand(3, d)
+                elif lay == "transposed":
+                    big = v.transpose(0, 1).contiguous()
+                    view = big.transpose(0, 1)
+                else:
+                    view = v.clone().requires_grad_(True)
+                if lay != "requires_grad" and view.is_contiguous() and lay != "expanded":
+                    continue
+                aux = None if kaux is None else (_fresh(kaux, _make(kaux, rng, shape, dtype)) if kaux in lie.LT else _make(kaux, rng, shape, dtype))
+                Xv = pp.LieTensor(view, ltype=lie.LT[kx]) if kx != "R" else view
+                regime = f"{name}/{dn}/layout:{lay}"
+                wit = {"op": name, "dtype": dn, "layout": lay}
+                ok, r = ck.call("layout", regime, name, f, Xv, aux, witness=wit)
+                ok2, ref = ck.call("layout", regime, name, f, _fresh(kx, v), aux, witness=wit)
+                ck.count("layout", regime, key=(name, dn, lay))
+                if ok and ok2:
+                    ck.ratio("layout", regime, _close(_vals(r), _vals(ref), u), 1.0, name, "result_depends_on_memory_layout_of_the_operand", wit)
+                    ck.check(torch.equal(_vals(Xv), v), "layout", regime, name, "operand_changed", wit)
+                    ck.mark("layout/" + lay)
+    ck.require("history/copy_", "history/index", "history/retract", "layout/strided-batch", "layout/strided-last", "layout/expanded",
+               "layout/transposed", "layout/requires_grad")
     ck.floor("history", 8)
